@@ -4,7 +4,7 @@ from threading import Lock
 import logging
 
 from .base import chain_cancel, weak_callback, OutputFuture
-from ..common import copy_future_exception, try_set_result
+from ..common import copy_exception, copy_future_exception, try_set_result
 from .check import ensure_futures
 from ..logwrap import LogWrapper
 from ..metrics import track_future
@@ -33,6 +33,7 @@ class BoolOperation(object):
         set_result = False
         set_exception = False
         cancel_futures = set()
+        error = None
 
         with self.lock:
             if self.done:
@@ -40,8 +41,18 @@ class BoolOperation(object):
 
             del self.fs[f]
 
-            (set_result, set_exception, cancel_futures) = self.get_state_update(f)
+            try:
+                (set_result, set_exception, cancel_futures) = self.get_state_update(f)
+            except Exception as ex:  # pylint: disable=broad-except
+                # The truth value of the result could not be determined
+                # (its __bool__ or __len__ raised). As for "x and y" / "x or y",
+                # that error is the outcome.
+                self.done = True
+                cancel_futures = list(self.fs.keys())
+                error = ex
 
+        if error is not None:
+            copy_exception(self.out, error, error.__traceback__)
         if set_result:
             try_set_result(self.out, f.result())
         if set_exception:
